@@ -27,6 +27,7 @@ struct Under {
     log: Log,
     gate: Arc<Gate>,
     wfail: Vec<usize>,
+    errkind: io::ErrorKind,
     ffail: Vec<usize>,
     short: usize, // max bytes accepted per write call (0 = unlimited)
     /// continuation calls (a `write` in the middle of a line, after a short write) that fail with WouldBlock: the line is torn
@@ -96,7 +97,7 @@ impl Write for Under {
                 let id = parse_line(buf);
                 self.log.push(json!({"ev": "w.fail", "p": id.map(|x| x.0).unwrap_or(0), "i": id.map(|x| x.1).unwrap_or(0)}));
                 self.attempts.fetch_add(1, Ordering::SeqCst);
-                return Err(io::Error::new(io::ErrorKind::Other, "injected write error"));
+                return Err(io::Error::new(self.errkind, "injected write error"));
             }
         }
         let n = if self.short > 0 { buf.len().min(self.short) } else { buf.len() };
@@ -155,6 +156,14 @@ fn child() {
         log: log.clone(),
         gate: gate.clone(),
         wfail: idx("wfail"),
+        errkind: match sc["errkind"].as_str().unwrap_or("other") {
+            "broken_pipe" => io::ErrorKind::BrokenPipe,
+            "connection_reset" => io::ErrorKind::ConnectionReset,
+            "permission_denied" => io::ErrorKind::PermissionDenied,
+            "timed_out" => io::ErrorKind::TimedOut,
+            "unexpected_eof" => io::ErrorKind::UnexpectedEof,
+            _ => io::ErrorKind::Other,
+        },
         ffail: idx("ffail"),
         short: sc["short"].as_u64().unwrap_or(0) as usize,
         midfail: idx("midfail"),
@@ -272,6 +281,17 @@ fn child() {
                 log.push(json!({"ev": "guard.drop.start", "dropped": counter.dropped_lines()}));
                 let t0 = Instant::now();
                 drop(guard.take());
+                log.push(json!({"ev": "guard.drop.end", "ms": t0.elapsed().as_millis() as u64}));
+            }
+            "drop_guard_unwind" => {
+                log.push(json!({"ev": "guard.drop.start", "dropped": counter.dropped_lines()}));
+                let t0 = Instant::now();
+                let g = guard.take();
+                let r = std::panic::catch_unwind(std::panic::AssertUnwindSafe(move || {
+                    let _owner = g;
+                    panic!("unwinding through the owner of the worker guard");
+                }));
+                assert!(r.is_err());
                 log.push(json!({"ev": "guard.drop.end", "ms": t0.elapsed().as_millis() as u64}));
             }
             "drop_guard_async" => {
